@@ -7,6 +7,7 @@ var engineKind = map[string]string{
 	"vmm":  "software MMU over a fixed-address host arena: simulated CR3, TLB invalidation log, seeded failing frame allocator, independent page-table walker; real Map/Unmap/Translate/regions/PageDirectoryTable/vmm.Init/page-fault handler; harness plays bootloader (ELF sections tag) and CPU (page faults)",
 	"tree": "real aml.ObjectTree driven by seeded edit/lookup histories against a reference tree and reference resolver (single party, no hardware)",
 	"acpi": "simulated firmware memory (fixed-address arena below 4 GiB) with generated valid ACPI images and a fault plan (byte corruption, decoy root pointers, mapping failures); real probe/enumeration code",
+	"tty":  "real tty.VT in lock-step with a reference terminal; consoles: reference cell grid, real VGA text console, real VESA framebuffer console on guarded host memory; independent pixel renderer as oracle",
 	"pmmc": "same simulated boot, bitmap_allocator.go rebuilt with go/ast-inserted yields; 2-16 goroutine tasks under the seeded scheduler, real spinlock; ownership invariant, conservation at quiescence, exact deadlock detection, porcupine linearizability of recorded histories",
 }
 
@@ -69,4 +70,14 @@ func init() {
 		"Trusted: image builder (ACPI layout, independent of the Go structs), checksum arithmetic of the oracle. Weakest 'fault' fit: the image is immutable during the call.",
 		"deterministic simulation with fault injection: simulated firmware memory, seeded corruption/decoy/mapping-failure plans, exact-set oracle",
 		"DESIGN.md 5.5")
+	t("C17",
+		"Seeded multi-writer histories with stepwise refinement of a reference terminal (cursor, whole buffer incl. scrollback, viewport origin) after every operation; out-of-buffer accesses surface as Go panics.",
+		"Trusted: reference terminal written from the statement. Single party effectively (writers are labels): no schedule or fault dimension.",
+		"deterministic simulation (sequential seeded histories) with stepwise reference-model refinement",
+		"DESIGN.md 5.7")
+	t("C18",
+		"Two-component consistency under seeded histories: console == reference viewport after every operation while active (cell by cell; framebuffer pixel by pixel through an independent renderer), byte-identical console while inactive, resync on activation; real text-mode and framebuffer consoles on guarded host memory.",
+		"Trusted: reference terminal, independent renderer (font bitmap -> pixels, palette -> packed pixel per colour masks). Area outside the grid is initialised uniformly (see assumptions).",
+		"deterministic simulation: two real components on simulated display hardware, cross-component invariant after every step",
+		"DESIGN.md 5.7")
 }
